@@ -36,6 +36,11 @@ type PGen struct {
 	symN   int
 	budget int
 	inFun  bool
+
+	// StateOp, when set, lets S() emit acknowledged state operations (E2).
+	StateOp func(g *PGen) *Node
+	CurPkg  string   // package the generated code will run in
+	Pkgs    []string // extra packages nested loads may switch to
 }
 
 func NewPGen(r *Rand, o GenOpts) *PGen {
@@ -125,6 +130,9 @@ func PickNode(r *Rand, xs ...*Node) *Node { return xs[r.Intn(len(xs))] }
 
 // S is an expression evaluated for effect.
 func (g *PGen) S(d int) *Node {
+	if g.StateOp != nil && g.r.Chance(1, 2) {
+		return g.StateOp(g)
+	}
 	if len(g.globs) > 0 && g.r.Chance(1, 4) {
 		gl := PickStr(g.r, g.globs)
 		if g.r.Bool() {
@@ -422,14 +430,22 @@ func (g *PGen) errForm(d int) *Node {
 
 func (g *PGen) loadString(d int) *Node {
 	// the nested source sees only globals
-	saveV, saveL := g.vars, g.lvars
+	saveV, saveL, saveG, saveP, saveF, saveM := g.vars, g.lvars, g.globs, g.CurPkg, g.funs, g.macros
 	g.vars, g.lvars = nil, nil
 	var forms []*Node
+	if g.o.Packages && len(g.Pkgs) > 0 && g.r.Chance(1, 2) {
+		g.CurPkg = PickStr(g.r, g.Pkgs)
+		g.globs, g.funs, g.macros = nil, nil, nil // unqualified names of the outer package are not visible
+		forms = append(forms, Call("in-package", QS(g.CurPkg)))
+	}
 	k := g.r.Range(1, 2)
 	for i := 0; i < k; i++ {
+		if g.StateOp != nil && g.r.Chance(1, 2) {
+			forms = append(forms, g.StateOp(g))
+		}
 		forms = append(forms, g.Probe(g.E(d-1)))
 	}
-	g.vars, g.lvars = saveV, saveL
+	g.vars, g.lvars, g.globs, g.CurPkg, g.funs, g.macros = saveV, saveL, saveG, saveP, saveF, saveM
 	return Call("load-string", Str(Src(forms)))
 }
 
@@ -437,6 +453,8 @@ func (g *PGen) callFun(d int) *Node {
 	f := g.funs[g.r.Intn(len(g.funs))]
 	fuel := g.r.Range(0, g.o.MaxFuel)
 	switch f.kind {
+	case "nullary":
+		return Call(f.name)
 	case "tail", "mutual":
 		if g.r.Chance(1, 6) {
 			fuel *= 4
@@ -495,7 +513,7 @@ func (g *PGen) Defs(d int) []*Node {
 	var out []*Node
 	ng := g.r.Range(0, 2)
 	for i := 0; i < ng; i++ {
-		name := g.sym("g")
+		name := g.sym("gv")
 		out = append(out, Call("set", QS(name), g.lit()))
 		g.globs = append(g.globs, name)
 	}
